@@ -178,6 +178,13 @@ func extractTarDirectory(dirPath, dirName string, r io.Reader, buf []byte, prese
 		// Create content
 		switch header.Typeflag {
 		case tar.TypeReg:
+			// a symbolic link that already sits at the entry's path is replaced, not
+			// written through: its target may lie outside of the base directory
+			if info, lerr := os.Lstat(filePath); lerr == nil && info.Mode()&os.ModeSymlink != 0 {
+				if err := os.Remove(filePath); err != nil {
+					return err
+				}
+			}
 			err = writeFile(filePath, tr, header.FileInfo().Mode(), buf)
 		case tar.TypeDir:
 			err = os.MkdirAll(filePath, header.FileInfo().Mode())
